@@ -82,7 +82,8 @@ struct ExecBase : yaclib::IExecutor {
 struct Ctx {
   Cfg cfg;
   std::vector<std::unique_ptr<ExecBase>> exe;
-  std::map<std::uintptr_t, int> core2id;
+  std::map<std::uintptr_t, int> core2id;  // address of the coroutine's Node (what executors see) -> id
+  std::map<std::uintptr_t, int> word2id;  // address of its BaseCore (what the sender word holds) -> id
   const volatile void* sender = nullptr;
   std::uintptr_t last_sender = std::numeric_limits<std::uintptr_t>::max();
   yaclib_std::atomic<int> tick{0};  // a wrapped operation = an explored preemption point
@@ -173,7 +174,6 @@ struct ManualExec final : ExecBase {
     job.next = nullptr;  // what an intrusive queue does to the node
     q.push_back(&job);
     park.NotifyAll();
-    c->Tick();
   }
   void Worker() {
     while (true) {
@@ -188,7 +188,6 @@ struct ManualExec final : ExecBase {
       q.erase(q.begin() + static_cast<std::ptrdiff_t>(i));
       vrt::Event("run" + Ctx::S(id) + " " + Ctx::S(c->Id(*job)));
       job->Call();
-      c->Tick();
     }
   }
   void Finish() {
@@ -208,16 +207,19 @@ struct PoolExec final : ExecBase {
 
 struct Self {
   void* p = nullptr;
+  void* core = nullptr;
   bool await_ready() const noexcept {
     return false;
   }
   template <typename P>
   bool await_suspend(yaclib_std::coroutine_handle<P> h) noexcept {
-    p = static_cast<yaclib::detail::Node*>(static_cast<yaclib::detail::BaseCore*>(&h.promise()));
+    auto* base = static_cast<yaclib::detail::BaseCore*>(&h.promise());
+    core = base;
+    p = static_cast<yaclib::detail::Node*>(base);
     return false;
   }
-  void* await_resume() const noexcept {
-    return p;
+  std::pair<void*, void*> await_resume() const noexcept {
+    return {p, core};
   }
 };
 
@@ -234,8 +236,9 @@ std::string UForm(const Round& rd, bool sticky) {
 
 template <typename M>
 yaclib::Future<> Co(Ctx* c, M* m, int id) {
-  void* self = co_await Self{};
-  c->core2id[reinterpret_cast<std::uintptr_t>(self)] = id;
+  auto self = co_await Self{};
+  c->core2id[reinterpret_cast<std::uintptr_t>(self.first)] = id;
+  c->word2id[reinterpret_cast<std::uintptr_t>(self.second)] = id;
   const CoSpec& spec = c->cfg.cos[static_cast<std::size_t>(id)];
   co_await yaclib::On(*c->exe[static_cast<std::size_t>(spec.home)]);
   vrt::Event("st" + Ctx::S(id));
@@ -340,8 +343,8 @@ std::string FmtSender(std::uint64_t v) {
     return "L";
   }
   if (gC != nullptr) {
-    auto it = gC->core2id.find(static_cast<std::uintptr_t>(v));
-    if (it != gC->core2id.end()) {
+    auto it = gC->word2id.find(static_cast<std::uintptr_t>(v));
+    if (it != gC->word2id.end()) {
       return "W" + std::to_string(it->second);
     }
   }
@@ -356,14 +359,16 @@ void MyAfter(const volatile void* obj, std::size_t size, const char* op) {
     std::memcpy(&raw, const_cast<const void*>(obj), sizeof raw);
     if (std::strcmp(op, "compare_exchange_weak") == 0 && raw != c->last_sender && raw != 0 &&
         raw != std::numeric_limits<std::uintptr_t>::max()) {
-      auto it = c->core2id.find(raw);
-      if (it != c->core2id.end()) {
+      auto it = c->word2id.find(raw);
+      if (it != c->word2id.end()) {
         c->outstanding.push_back(it->second);
       }
     }
     c->last_sender = raw;
   }
-  vrt::detail::After(obj, size, op);
+  if (c == nullptr || obj != &c->tick) {
+    vrt::detail::After(obj, size, op);
+  }
 }
 
 // With --param yields=named only operations on named locations (the sender word and the harness' tick) are preemption
@@ -388,7 +393,7 @@ void RunWith(const Cfg& cfg) {
   M m;
   c.sender = &m._sender;
   vrt::NameLoc(&m._sender, "s", FmtSender);
-  vrt::NameLoc(&c.tick, "t");
+  vrt::NameLoc(&c.tick, "t");  // a preemption point also under yields=named; not traced (see MyAfter)
   {
     std::string d = "cfg B=" + std::to_string(cfg.batching) + " F=" + std::to_string(cfg.fifo) + " W=";
     for (auto w : cfg.workers) {
@@ -418,6 +423,11 @@ void RunWith(const Cfg& cfg) {
     c.exe.back()->id = static_cast<int>(e);
   }
   std::vector<yaclib_std::thread> ts;
+  std::vector<yaclib::Future<>> fs;
+  for (std::size_t i = 0; i < k; ++i) {
+    fs.push_back(Co<M>(&c, &m, static_cast<int>(i)));
+  }
+  // the manual executors' workers start after every coroutine has been submitted (the model starts with all of them queued)
   for (std::size_t e = 0; e < manual.size(); ++e) {
     for (int w = 0; w < cfg.workers[e]; ++w) {
       auto* ex = manual[e];
@@ -426,10 +436,6 @@ void RunWith(const Cfg& cfg) {
         ex->Worker();
       });
     }
-  }
-  std::vector<yaclib::Future<>> fs;
-  for (std::size_t i = 0; i < k; ++i) {
-    fs.push_back(Co<M>(&c, &m, static_cast<int>(i)));
   }
   if (by) {
     const int id = static_cast<int>(k);
